@@ -214,7 +214,7 @@ static rc::Gen<std::string> gen_blind(const std::string &x) {
 static rc::Gen<std::string> gen_peer(const std::string &x) {
   return rc::gen::exec([x]() -> std::string {
     int w = *rc::gen::weightedElement<int>(
-        {{2, 0}, {2, 1}, {2, 2}, {3, 3}, {3, 4}, {3, 5}, {2, 6}, {3, 7}, {10, 8}, {4, 9}, {3, 10}, {2, 11}, {2, 12}});
+        {{2, 0}, {2, 1}, {2, 2}, {3, 3}, {3, 4}, {3, 5}, {2, 6}, {3, 7}, {10, 8}, {4, 9}, {3, 10}, {2, 11}, {2, 12}, {3, 13}});
     mpz_t t;
     std::string s;
     switch (w) {
@@ -252,6 +252,19 @@ static rc::Gen<std::string> gen_peer(const std::string &x) {
       }
       mpz_clears(z, e, d, NULL);
       return out;
+    }
+    case 13: {  // p +- 2^(8j) +- 1, p with one 32/64-bit word replaced: word-wise arithmetic near p (whole words equal to p's, borrows and carries coming in)
+      mpz_init(t);
+      mpz_set_ui(t, 1);
+      int wbits = *rc::gen::elementOf(std::vector<int>{32, 64});
+      mpz_mul_2exp(t, t, (unsigned long)(wbits * *range<int>(1, 2048 / wbits - 1)));
+      int v = *range<int>(0, 5);
+      if (v & 1) mpz_sub_ui(t, t, 1); else if (v == 4) mpz_add_ui(t, t, 1);
+      if (v < 4 || *range<int>(0, 1)) mpz_add(t, P, t); else mpz_sub(t, P, t);
+      if (mpz_sgn(t) < 0 || mpz_sizeinbase(t, 2) > 2048) mpz_set(t, P);
+      s = to_be(t, 256);
+      mpz_clear(t);
+      return s;
     }
     case 10: return add_small(P, *rc::gen::elementOf(std::vector<long>{-2, -3, 2, 3, -256, 256, -65536, 65537}));
     case 11: {  // >= p with random tail: p's first 8 bytes are ff, the ninth is c9
@@ -523,6 +536,53 @@ static Outcome run_osslfault(const Case &c) {
   priv_classes(o, x);
   return o;
 }
+// sub "osslfresh" (every case in a forked child whose parent never calls the library): the FIRST DH call of a process is the faulted one
+// (anything the library builds lazily is built under the fault), then the same call without fault must be exact
+static Outcome run_osslfresh(const Case &c) {
+  Outcome o;
+  std::string x, y, r;
+  int64_t k = 1, which = 0;
+  for (auto &op : c) {
+    if (op.k == "x") x = op.b;
+    else if (op.k == "y") y = op.b;
+    else if (op.k == "r") r = op.b;
+    else if (op.k == "k" && op.a.size() >= 2) k = std::max<int64_t>(1, std::min<int64_t>(op.a[0], 90)), which = op.a[1] & 1;
+  }
+  x = fit(x, 32);
+  y = fit(y, 256);
+  r = fit(r, 32);
+  std::string want = which ? oracle_pow(y, x) : oracle_pow(two_be(), x);
+  g_ossl_calls = 0;
+  g_ossl_failed = 0;
+  g_ossl_fail_at = k;
+  Lib l1 = which ? lib_key(y, x, {r}) : lib_pub(x, {r});
+  g_ossl_fail_at = -1;
+  bool reached = g_ossl_failed > 0;
+  if (l1.rc == 0 && l1.out != want) {
+    o.fail("value-under-alloc-failure-first-call", "the first DH call of the process returned success with a wrong value when OpenSSL allocation #" + std::to_string(k) + " failed");
+    return o;
+  }
+  for (int rep = 0; rep < 2 && o.ok; rep++) {
+    Lib l2 = which ? lib_key(y, x, {r}) : lib_pub(x, {r});
+    if (l2.rc != 0 || l2.out != want)
+      o.fail("value-after-earlier-alloc-failure", std::string(which ? "crypto_dh_compute" : "crypto_dh_generate_pub") + " is wrong (rc=" + std::to_string(l2.rc) + ") in a process whose FIRST DH call had OpenSSL allocation #" +
+                                                      std::to_string(k) + " refused: " + (l2.rc ? "fails" : "value " + short_hex(l2.out) + ", expected " + short_hex(want)));
+  }
+  o.nontrivial = reached;
+  o.cls(reached ? (l1.rc ? "first-call-failed-cleanly" : "first-call-survived") : "fault-not-reached");
+  return o;
+}
+static rc::Gen<Case> gen_osslfresh(int) {
+  return rc::gen::exec([]() {
+    std::string x = *gen_s32();
+    Case c;
+    c.push_back(Op("x", {}, x));
+    c.push_back(Op("y", {}, *gen_peer(x)));
+    c.push_back(Op("r", {}, *gen_blind(x)));
+    c.push_back(Op("k", {*range<int>(1, 70), *range<int>(0, 1)}));
+    return c;
+  });
+}
 static rc::Gen<Case> gen_osslfault(int) {
   return rc::gen::exec([]() {
     std::string x = *gen_s32();
@@ -766,5 +826,12 @@ int main(int argc, char **argv) {
                   "then once per k = 1..N with the k-th allocation failing (CRYPTO_set_mem_functions): the call returns -1, or 0 with the exact GMP value. "
                   "evaluations = faulted runs. Non-trivial: the failing allocation was reached",
                   gen_osslfault, run_osslfault});
+  Sub fr{"osslfresh",
+         "as osslfault, but every case runs in a forked child (fresh library state) and the FAULTED call is the first DH call of that process (allocation k in 1..70 refused), followed by two "
+         "unfaulted calls which must be exact: whatever the library builds once per process is built under the fault. Non-trivial: the failing allocation was reached",
+         gen_osslfresh, run_osslfresh};
+  fr.fork = true;
+  fr.timeout_s = 20;
+  subs.push_back(fr);
   return pbt_main(argc, argv, subs);
 }
